@@ -53,6 +53,7 @@ Fixpoint dec_e (fuel : nat) (v : val) : option expr :=
       | Some k', Some i' => Some (EThe k' i') | _, _ => None end
     | VL [VZ 17; k] => option_map ETheN (get_n k)
     | VL [VZ 19; k] => option_map EKey (get_n k)
+    | VL [VZ 20; a] => option_map EField (dec_e f a)
     | VL [VZ 18; k; a] => match get_n k, dec_e f a with Some k', Some a' => Some (EAcc k' a') | _, _ => None end
     | _ => None
     end
@@ -123,7 +124,7 @@ Fixpoint text_okb (en : env) (e : expr) {struct e} : bool :=
   match e with
   | ELoc i => loc_okb en i
   | EBin _ x y => text_okb en x && text_okb en y
-  | ENeg x | ENot x => text_okb en x
+  | ENeg x | ENot x | EField x => text_okb en x
   | ECall f args => lingo_plain_call (nm en f) && forallb (text_okb en) args
   | ELCall f args => lingo_plain_call (nth f (e_lfuncs en) "") && forallb (text_okb en) args
   | EList items => forallb (text_okb en) items
@@ -138,7 +139,7 @@ Fixpoint js_okb (en : env) (e : expr) {struct e} : bool :=
   match e with
   | ELoc i => loc_okb en i
   | EBin _ x y => js_okb en x && js_okb en y
-  | ENeg x | ENot x => js_okb en x
+  | ENeg x | ENot x | EField x => js_okb en x
   | ECall f args => plain_call_name (nm en f) && forallb (js_okb en) args
   | ELCall f args => plain_call_name (nth f (e_lfuncs en) "") && forallb (js_okb en) args
   | EList items | EPList items => forallb (js_okb en) items
